@@ -1,5 +1,5 @@
 SPECIFICATION Spec
-CONSTANTS MaxPg=3 InitN=2 MaxVer=3 MaxFrames=4 MaxTx=5 MaxGen=4 MaxDown=2 FixF1=TRUE FixF2=TRUE FixG1=TRUE ReqCtx=TRUE FixQ1=TRUE FixQ2=TRUE FixM2=TRUE
+CONSTANTS MaxPg=3 InitN=2 MaxVer=3 MaxFrames=4 MaxTx=5 MaxGen=4 MaxDown=2 FixF1=TRUE FixF2=TRUE FixG1=TRUE ReqCtx=FALSE FixQ1=TRUE FixQ2=TRUE FixM2=TRUE
   Modes={"PASSIVE","TRUNCATE"} AppModes={"PASSIVE","RESTART","TRUNCATE"} AtomicChk=FALSE WithCrash=TRUE
 INVARIANTS C01raw Decodable NoUncommitted
 VIEW view
